@@ -227,6 +227,8 @@ def dataset_spec(draw, naming=None, dense=None, raw=None, curated=None, features
     if spec['wmi_file']:
         spec['wmi_approx'] = draw(st.booleans())
         spec['wm_newer'] = draw(st.booleans())
+    # only the inverse is there (the matrix file was removed): the loader still reads the inverse
+    spec['wmi_only'] = bool(not w and not merge_ready and draw(st.integers(0, 2)) == 0)
     spec['sim'] = draw(_present)
     # features
     f = True if merge_ready else _opt(draw, features, _present)
@@ -455,6 +457,9 @@ def build(spec, dirpath, write_params=True):
     else:
         T.wm = None
         T.wmi_file = None
+        if spec.get('wmi_only'):
+            T.wmi_file = np.eye(nc) + 0.1 * rs.randn(nc, nc)
+            np.save(d / 'whitening_mat_inv.npy', T.wmi_file)
     if spec['sim']:
         T.sim = rs.rand(nt, nt).astype(np.float32)
         if spec['nan']:
@@ -576,10 +581,10 @@ def load(T, must_return):
 
 def wmi_of(T):
     """Inverse whitening matrix the model must use (file if present, else inv, else identity)."""
-    if T.wm is None:
-        return np.eye(T.spec['nc'])
     if T.wmi_file is not None:
         return T.wmi_file
+    if T.wm is None:
+        return np.eye(T.spec['nc'])
     return np.linalg.inv(T.wm)
 
 
